@@ -4,6 +4,7 @@ package main
 // authenticators (C09). Each is part of the trusted base.
 
 import (
+	"go/types"
 	"encoding/base64"
 	"encoding/hex"
 	"fmt"
@@ -93,6 +94,33 @@ func b64Char(s *Term) *Term { // s: BV8 in 0..63
 }
 
 func init() {
+	// ugorji codec is not encoded: the serializers' data-item functions return
+	// an arbitrary outcome (error, or success with a zero payload)
+	for _, sname := range []string{"JSONSerializer", "MessagePackSerializer", "CBORSerializer"} {
+		base := "(*github.com/gammazero/nexus/v3/transport/serialize." + sname + ")."
+		reg(base+"DeserializeDataItem", func(x *Exec, g *G, a []Value) Value {
+			if x.chooseFree(2, "codec.deserialize") == 0 {
+				return x.mkError(MkStr("codec: cannot decode"))
+			}
+			iv := a[2].(Iface)
+			if p, ok := iv.V.(*Value); ok && p != nil {
+				if pt, ok := iv.T.(*types.Pointer); ok {
+					if inner, ok := pt.Elem().(*types.Pointer); ok {
+						cell := new(Value)
+						*cell = zero(inner.Elem())
+						*p = cell
+					}
+				}
+			}
+			return Iface{}
+		})
+		reg(base+"SerializeDataItem", func(x *Exec, g *G, a []Value) Value {
+			if x.chooseFree(2, "codec.serialize") == 0 {
+				return TupleV{SliceV{Nil: true}, x.mkError(MkStr("codec: cannot encode"))}
+			}
+			return TupleV{bytesSlice([]*Term{MkBV(8, 1), MkBV(8, 2)}), Iface{}}
+		})
+	}
 	reg("encoding/hex.EncodeToString", func(x *Exec, g *G, a []Value) Value {
 		bs := termBytes(a[0])
 		if allConst(bs) {
